@@ -18,6 +18,7 @@ import (
 	"tunnox-core/internal/core/idgen"
 	corelog "tunnox-core/internal/core/log"
 	"tunnox-core/internal/core/storage/memory"
+	"tunnox-core/internal/stream"
 	vk "tunnox-core/internal/verifkit"
 )
 
@@ -696,12 +697,65 @@ func (l *c17RegLogger) Debugf(format string, args ...interface{}) {
 	}
 }
 
+// c17Stream is a control connection's stream whose only live method is Close (the
+// registry calls nothing else): Close runs the harness callback, which yields (a slow
+// close) or holds the closer on a gate.
+type c17Stream struct {
+	stream.PackageStreamer
+	onClose func()
+}
+
+func (s *c17Stream) Close() {
+	if s.onClose != nil {
+		s.onClose()
+	}
+}
+
+// c17CloseGate holds the FIRST goroutine that closes an evicted stream until `others`
+// further Register calls have returned, or nothing has returned for c17Stall (in a
+// Register that closes under its lock the others cannot return: scheduling decision,
+// never a verdict), capped by the watchdog.
+type c17CloseGate struct {
+	others   int32
+	returned atomic.Int32
+	progress atomic.Int64
+	used     atomic.Bool
+	held     atomic.Bool
+	byCount  atomic.Bool
+}
+
+func (g *c17CloseGate) registerReturned() {
+	g.returned.Add(1)
+	g.progress.Store(time.Now().UnixNano())
+}
+
+func (g *c17CloseGate) hold() {
+	if !g.used.CompareAndSwap(false, true) {
+		return
+	}
+	g.held.Store(true)
+	base := g.returned.Load()
+	g.progress.Store(time.Now().UnixNano())
+	began := time.Now()
+	for time.Since(began) < c17Watchdog {
+		if g.returned.Load()-base >= g.others {
+			g.byCount.Store(true)
+			return
+		}
+		if time.Since(time.Unix(0, g.progress.Load())) > c17Stall {
+			return
+		}
+		time.Sleep(200 * time.Microsecond)
+	}
+}
+
 type c17RegCase struct {
 	Kind    string `json:"kind"`
 	Limit   int    `json:"limit"`
 	Prefill int    `json:"prefill"`
 	N       int    `json:"n"`
 	Yields  int    `json:"yields_in_critical_section"`
+	Close   string `json:"stream_close,omitempty"` // "" = nil streams | slow = Close yields | gate = first Close held until the other Registers returned
 }
 
 type c17RegOutcome struct {
@@ -716,9 +770,29 @@ type c17RegOutcome struct {
 func c17ControlTrial(run *vk.Run, cs c17RegCase, tn int) {
 	lg := &c17RegLogger{yields: cs.Yields}
 	reg := NewClientRegistry(&ClientRegistryConfig{MaxConnections: cs.Limit, Logger: lg})
+	cg := &c17CloseGate{others: int32(cs.N - 1)}
+	var closes atomic.Int32
+	mkStream := func() stream.PackageStreamer {
+		switch cs.Close {
+		case "slow":
+			return &c17Stream{onClose: func() {
+				closes.Add(1)
+				for i := 0; i < 8+4*cs.Yields; i++ {
+					runtime.Gosched()
+				}
+			}}
+		case "gate":
+			return &c17Stream{onClose: func() {
+				closes.Add(1)
+				cg.hold()
+				runtime.Gosched()
+			}}
+		}
+		return nil
+	}
 	base := time.Now().Add(-time.Hour)
 	for i := 0; i < cs.Prefill; i++ {
-		c := &ControlConnection{ConnID: fmt.Sprintf("pre-%d", i), ClientID: int64(1000 + i), Authenticated: true, CreatedAt: base.Add(time.Duration(i) * time.Second)}
+		c := &ControlConnection{ConnID: fmt.Sprintf("pre-%d", i), ClientID: int64(1000 + i), Authenticated: true, CreatedAt: base.Add(time.Duration(i) * time.Second), Stream: mkStream()}
 		if err := reg.Register(c); err != nil {
 			run.Count("control_prefill_refused", 1)
 			return
@@ -744,10 +818,11 @@ func c17ControlTrial(run *vk.Run, cs c17RegCase, tn int) {
 		wg.Add(1)
 		go func(i int) {
 			defer wg.Done()
-			c := &ControlConnection{ConnID: fmt.Sprintf("c17-t%d-r%d", tn, i), ClientID: int64(5000 + i), Authenticated: true, CreatedAt: time.Now()}
+			c := &ControlConnection{ConnID: fmt.Sprintf("c17-t%d-r%d", tn, i), ClientID: int64(5000 + i), Authenticated: true, CreatedAt: time.Now(), Stream: mkStream()}
 			spin.wait()
 			c17StoreMax(&maxInFlight, inFlight.Add(1))
 			errs[i] = reg.Register(c)
+			cg.registerReturned()
 			c17StoreMax(&maxCount, int32(reg.Count()))
 			inFlight.Add(-1)
 		}(i)
@@ -776,7 +851,16 @@ func c17ControlTrial(run *vk.Run, cs c17RegCase, tn int) {
 	if cs.Limit > 0 && cs.Prefill+cs.N > cs.Limit {
 		run.Count("control_evictions_forced", 1)
 	}
-	run.Distinct(fmt.Sprintf("control|L%d|P%d|N%d|Y%d|max%d|inflight%d", cs.Limit, cs.Prefill, cs.N, cs.Yields, out.MaxCount, out.MaxInFlight))
+	if closes.Load() > 0 {
+		run.Count("control_evicted_streams_closed", int64(closes.Load()))
+	}
+	if cg.held.Load() {
+		run.Count("control_trials_evictor_held_in_close", 1)
+	}
+	if cg.byCount.Load() {
+		run.Count("control_close_gate_opened_by_other_registers", 1) // only possible if Close runs outside the lock
+	}
+	run.Distinct(fmt.Sprintf("control|L%d|P%d|N%d|Y%d|close=%s|max%d|inflight%d", cs.Limit, cs.Prefill, cs.N, cs.Yields, cs.Close, out.MaxCount, out.MaxInFlight))
 	run.Sample(out)
 	if cs.Limit > 0 {
 		run.Max("control_max_over_limit", int64(out.MaxCount-cs.Limit))
@@ -800,15 +884,23 @@ func TestVerifC17ControlCap(t *testing.T) {
 	run := vk.Start(t, "C17", "controlcap")
 	defer run.Finish()
 	run.Rule("ClientRegistry.Register with maxConnections=L in {0,1,2,5}: prefill L-1 or L (at the cap), N in {2,8,32} concurrent Register calls from a spin barrier, " +
-		"a sampler goroutine and every racer read Count(); the registry's logger yields inside the evict section. distinct = (L, prefill, N, yields, max Count seen, max calls in flight)")
+		"a sampler goroutine and every racer read Count(); the registry's logger yields inside the evict section; connections carry nil streams, streams whose Close yields (slow close), or streams whose first Close (the evictor's) is held until the other N-1 Register calls returned (or nothing moves for 4 ms). distinct = (L, prefill, N, yields, max Count seen, max calls in flight)")
 	run.Floor("control_trials_2plus_in_flight", 100)
 	run.Floor("control_evictions_forced", 100)
+	run.Floor("control_evicted_streams_closed", 100)
+	run.Floor("control_trials_evictor_held_in_close", 50)
 	reps := run.Pick(200, 4000)
 	tn := 0
 	for _, L := range c17Limits {
 		for _, N := range c17Ns {
 			for rep := 0; rep < reps && run.Violations() < 20; rep++ {
 				cs := c17RegCase{Kind: "control", Limit: L, N: N, Prefill: L - 1, Yields: rep % 3}
+				switch rep % 8 {
+				case 2, 3, 6:
+					cs.Close = "slow"
+				case 5: // at the cap (odd rep): the first eviction's Close is held while the other Registers run
+					cs.Close = "gate"
+				}
 				if rep%2 == 1 {
 					cs.Prefill = L
 				}
